@@ -8,6 +8,8 @@ R6.4  alias classes: base chosen by range helpers that evaluate to [400,499] / [
 R6.5  errors carry status and response (HTTPError.__init__, alias __init__ template, raise templates)
 R6.6  the shared-core predicate holds for every layout [= R11.2]; R6.7 call-local memo keys in the loader cover the status code
 R6.9  the alias module regenerated for the union of all clients' codes imports ClientError and ServerError unconditionally          [= R11.4]
+R6.10 the registry of a core contained in the regenerated package (at any depth) survives the removal of that package              [= R11.5]
+R6.11 the bundled transport never switches httpx's redirect-following on (a 3xx with a Location header must reach the raise guard)
 R6.8  the exception registry is read, extended and written back as a union, never rebuilt (alias classes of other clients stay importable)  [= R11.1]
 """
 from __future__ import annotations
@@ -218,6 +220,9 @@ def run(repo: Repo, rep: Report, tier: str) -> None:
     # R6.8: the alias classes other clients raise survive a regeneration (registry read-modify-write-union)
     # R6.9: ... and the regenerated alias module imports the base class of every alias it defines, whatever the current spec declares
     reuse(repo, rep, "c11", {"R11.1": "R6.8", "R11.4": "R6.9"})
+    # R6.10: ... and a forced regeneration of the client that hosts the core carries the registry over the removal of its package   [= R11.5]
+    reuse(repo, rep, "c11", {"R11.5": "R6.10"})
+    rule_no_redirect_following(repo, rep, "R6.11")
     from rules._memo import local_memo_rule
 
     local_memo_rule(repo, rep, "R6.7", ("core.loader",),
@@ -550,3 +555,58 @@ def _dispatch_rules(gen: Function, helpers: Dict[str, ast.AST], rep: Report, con
     rep.require(found, "R6.4: no `raise {alias}(...)` template found in the dispatch generator (anchor vanished)")
     rep.count("R6.4:statuses_raising_alias", fmt(E))
     return E
+
+
+# ------------------------------------------------------------------------------------------------ R6.11 the status the guard sees is the server's own answer
+_R611_EXAMPLE = '''
+async def request(self, method, url, **kwargs):
+    request_args = dict(kwargs)
+    request_args.setdefault("follow_redirects", True)
+    return await self._client.request(method, url, **request_args)
+'''
+
+
+def _redirect_following(tree: ast.AST):
+    """Places that switch redirect-following on: a `follow_redirects=` keyword, a dict entry / subscript store / setdefault under that key -
+    with any value that is not the constant False."""
+    out = []
+
+    def on(v: ast.AST) -> bool:
+        return not (isinstance(v, ast.Constant) and v.value is False)
+
+    for n in ast.walk(tree):
+        if isinstance(n, ast.Call):
+            for k in n.keywords:
+                if k.arg == "follow_redirects" and on(k.value):
+                    out.append(n)
+            if isinstance(n.func, ast.Attribute) and n.func.attr in ("setdefault", "update", "__setitem__") and n.args and const_str(n.args[0]) == "follow_redirects" \
+                    and (len(n.args) < 2 or on(n.args[1])):
+                out.append(n)
+        if isinstance(n, ast.Dict):
+            for k, v in zip(n.keys, n.values):
+                if k is not None and const_str(k) == "follow_redirects" and on(v):
+                    out.append(n)
+        if isinstance(n, ast.Assign) and any(isinstance(t, ast.Subscript) and const_str(t.slice) == "follow_redirects" for t in n.targets) and on(n.value):
+            out.append(n)
+        if isinstance(n, ast.Assign) and any(isinstance(t, ast.Attribute) and t.attr == "follow_redirects" for t in n.targets) and on(n.value):
+            out.append(n)
+    return out
+
+
+def rule_no_redirect_following(repo: Repo, rep, rule: str = "R6.11") -> None:
+    """The raise guard of the bundled transport looks at `response.status_code` of what httpx returns.  With redirect-following switched on,
+    httpx answers a 301/302/303/307/308 that carries a Location header by requesting the target and returns *that* response: the 3xx
+    status never reaches the guard and the call returns a value for a status outside 200-299."""
+    rep.require(len(_redirect_following(ast.parse(_R611_EXAMPLE))) == 1, f"{rule}: the built-in positive example is no longer recognised - the rule is broken")
+    ht = repo.module("core.http_transport")
+    hz = _redirect_following(ht.tree)
+    n_calls = sum(1 for c in ast.walk(ht.tree) if isinstance(c, ast.Call) and isinstance(c.func, ast.Attribute) and c.func.attr in ("request", "AsyncClient", "send", "stream"))
+    rep.count(f"{rule}:httpx_call_sites", n_calls)
+    rep.require(n_calls >= 2, f"{rule}: the httpx client construction / request call of the bundled transport were not found (anchor)")
+    sub = f"{ht.relpath} redirects are not followed behind the raise guard"
+    if hz:
+        rep.violation(rule, sub, f"{ht.name}|follows-redirects",
+                      f"`{norm(hz[0])[:70]}`: httpx follows a 3xx answer that has a Location header and hands the transport the final response - a 301/302/303/307/308 "
+                      "then returns a value instead of raising HTTPError with that status", f"{ht.relpath}:{hz[0].lineno}")
+    else:
+        rep.ok(rule, sub, f"{n_calls} httpx call site(s): `follow_redirects` is never switched on (httpx default: off)", f"{ht.relpath}:1")
